@@ -215,13 +215,13 @@ type keyMon struct {
 	keys   []kmRec
 	subs   []kmRec
 	byRes  map[string][]int // result bytes -> indices into keys
-	perCls map[string]int
+	perCls map[string][]kmScored
 	sum    KeyMonSummary
 }
 
 func newKeyMon(fs []pkFunc, p *pkPools) *keyMon {
 	m := &keyMon{fs: fs, byName: map[string]int{}, keySpec: map[int]kmKeySpec{}, scans: kmScanSpecs(), subOf: map[int][]int{},
-		reqOrigin: p.reqOrigin, seen: map[string]bool{}, byRes: map[string][]int{}, perCls: map[string]int{}}
+		reqOrigin: p.reqOrigin, seen: map[string]bool{}, byRes: map[string][]int{}, perCls: map[string][]kmScored{}}
 	m.sum.PerKind = map[string]int{}
 	m.sum.Findings = []KMFinding{}
 	for i, f := range fs {
@@ -280,15 +280,65 @@ func (m *keyMon) call(r kmRec) KMCall {
 	return c
 }
 
+// kmOddness: how far a call is from ordinary use (20-byte addresses, printable non-empty names, ids of the real
+// lengths); the findings of a class are kept and listed most ordinary first
+func kmOddness(args []pkArg) int {
+	n := 0
+	for _, a := range args {
+		switch a.k {
+		case pkName:
+			if len(a.b) == 0 {
+				n += 6
+			}
+			for _, c := range a.b {
+				if c < 0x21 || c > 0x7e {
+					n += 10
+					break
+				}
+			}
+			n += len(a.b)
+		case pkAddr:
+			switch {
+			case len(a.b) == 20:
+			case len(a.b) == 0:
+				n += 30
+			case len(a.b) > 20 && len(a.b) <= 24:
+				n += 4
+			default:
+				n += 12
+			}
+			if bytes.IndexByte(a.b, 0) >= 0 {
+				n += 2
+			}
+		case pkBytes:
+			if len(a.b) != 40 && len(a.b) != 58 && len(a.b) != 32 {
+				n += 8
+			}
+		case pkI64, pkI16:
+			if a.i < 0 {
+				n += 3
+			}
+		}
+	}
+	return n
+}
+
+type kmScored struct {
+	score int
+	f     KMFinding
+}
+
 func (m *keyMon) report(kind, theorem, detail string, subject []pkArg, recs ...kmRec) {
 	m.sum.NFindings++
 	m.sum.PerKind[kind]++
 	cls := kind
+	score := 0
 	for _, r := range recs {
 		cls += "|" + m.fs[r.fn].name
+		score += kmOddness(r.args)
 	}
-	m.perCls[cls]++
-	if m.perCls[cls] > kmMaxPerClass || len(m.sum.Findings) >= kmMaxFindings {
+	best := m.perCls[cls]
+	if len(best) >= kmMaxPerClass && score >= best[len(best)-1].score {
 		return
 	}
 	f := KMFinding{Kind: kind, Prop: "C18", Theorem: theorem, Detail: detail}
@@ -298,7 +348,32 @@ func (m *keyMon) report(kind, theorem, detail string, subject []pkArg, recs ...k
 	for _, a := range subject {
 		f.Subject = append(f.Subject, a.String())
 	}
-	m.sum.Findings = append(m.sum.Findings, f)
+	best = append(best, kmScored{score, f})
+	sort.SliceStable(best, func(i, j int) bool { return best[i].score < best[j].score })
+	if len(best) > kmMaxPerClass {
+		best = best[:kmMaxPerClass]
+	}
+	m.perCls[cls] = best
+}
+
+// collect: the kept findings, most ordinary first
+func (m *keyMon) collect() {
+	var all []kmScored
+	var clss []string
+	for c := range m.perCls {
+		clss = append(clss, c)
+	}
+	sort.Strings(clss)
+	for _, c := range clss {
+		all = append(all, m.perCls[c]...)
+	}
+	sort.SliceStable(all, func(i, j int) bool { return all[i].score < all[j].score })
+	for _, x := range all {
+		if len(m.sum.Findings) >= kmMaxFindings {
+			break
+		}
+		m.sum.Findings = append(m.sum.Findings, x.f)
+	}
 }
 
 func kmSameAt(a, b []pkArg, sig []int) bool {
@@ -496,6 +571,7 @@ func (m *keyMon) finish() *KeyMonSummary {
 			}
 		}
 	}
+	m.collect()
 	return &m.sum
 }
 
